@@ -111,7 +111,102 @@ MUTANTS = [
       "            real_offset = self._data_offset+offset\n            f.seek(real_offset)\n            assert f.tell() == real_offset\n            f.write(data)",
       "            real_offset = offset\n            f.seek(real_offset)\n            assert f.tell() == real_offset\n            f.write(data)",
       "C22.5"),
+    # ---- gap review (mutation sweep survivors)
+    # C22.6 bytes dropped only in discard mode
+    M("discard-test-inverted", IMM,
+      "        if self.throw_out_all_data:\n            return False\n",
+      "        if not self.throw_out_all_data:\n            return False\n", "C22.6"),
+    M("discard-when-storage-enabled", SRV,
+      "                if self.no_storage:\n", "                if not self.no_storage:\n", "C22.6"),
+    M("discard-every-writer", SRV,
+      "                if self.no_storage:\n"
+      "                    # Really this should be done by having a separate class for\n"
+      "                    # this situation; see\n"
+      "                    # https://tahoe-lafs.org/trac/tahoe-lafs/ticket/3862\n"
+      "                    bw.throw_out_all_data = True\n",
+      "                bw.throw_out_all_data = True\n", "C22.6"),
+    M("discard-default-on", SRV,
+      "                 discard_storage=False, readonly_storage=False,",
+      "                 discard_storage=True, readonly_storage=False,", "C22.6"),
+    M("write-skipped-when-range-known", IMM,
+      "        self._sharefile.write_share_data(offset, data)\n\n        self._already_written.set(True, offset, end)",
+      "        if self._already_written.ranges(offset, end):\n            return self._is_finished()\n"
+      "        self._sharefile.write_share_data(offset, data)\n\n        self._already_written.set(True, offset, end)",
+      "C22.6"),
+    # C22.7 no second upload of the same share
+    M("realloc-over-complete-share", SRV,
+      "            if os.path.exists(finalhome):\n", "            if not os.path.exists(finalhome):\n", "C22.7"),
+    M("complete-share-check-dropped", SRV,
+      "            if os.path.exists(finalhome):\n"
+      "                # great! we already have it. easy.\n"
+      "                pass\n"
+      "            elif os.path.exists(incominghome):\n",
+      "            if os.path.exists(incominghome):\n", "C22.7"),
+    M("inprogress-share-truncated", SRV,
+      "            elif os.path.exists(incominghome):\n", "            elif not os.path.exists(incominghome):\n", "C22.7",
+      edits=[(IMM, "            assert not os.path.exists(self.home)\n", "")]),
+    # C22.3 directory tidying / crash leftovers
+    M("abort-rmdir-test-inverted", IMM,
+      "        if not os.listdir(parentdir):\n            os.rmdir(parentdir)\n",
+      "        if os.listdir(parentdir):\n            os.rmdir(parentdir)\n", "C22.3"),
+    M("abort-rmdir-unconditional", IMM,
+      "        if not os.listdir(parentdir):\n            os.rmdir(parentdir)\n",
+      "        os.rmdir(parentdir)\n", "C22.3"),
+    M("close-rmdir-outside-try", IMM,
+      "        fileutil.rename(self.incominghome, self.finalhome)\n        try:\n",
+      "        fileutil.rename(self.incominghome, self.finalhome)\n"
+      "        os.rmdir(os.path.dirname(self.incominghome))\n        try:\n", "C22.3"),
+    M("incoming-not-wiped-at-start", SRV,
+      "        self._clean_incomplete()\n", "", "C22.3"),
+    M("clean-incomplete-only-logs", SRV,
+      "    def _clean_incomplete(self):\n        fileutil.rm_dir(self.incomingdir)\n",
+      "    def _clean_incomplete(self):\n        log.msg(\"leaving %s in place\" % self.incomingdir)\n", "C22.3"),
+    # C22.4 / C22.5 negative offsets, reported length
+    M("read-negative-offset-allowed", IMM,
+      "        precondition(offset >= 0)\n        # reads beyond the end", "        # reads beyond the end", "C22.4"),
+    M("share-length-off-by-one", IMM,
+      "            self._length = filesize - 0xc - (num_leases * self.LEASE_SIZE)",
+      "            self._length = filesize - 0xd - (num_leases * self.LEASE_SIZE)", "C22.4"),
+    M("share-length-includes-leases", IMM,
+      "            self._length = filesize - 0xc - (num_leases * self.LEASE_SIZE)",
+      "            self._length = filesize - 0xc", "C22.4"),
+    M("write-negative-offset-allowed", IMM,
+      "        precondition(offset >= 0, offset)\n", "", "C22.5"),
+    M("write-offset-check-args-swapped", IMM,
+      "        precondition(offset >= 0, offset)\n", "        precondition(offset, offset >= 0)\n", "C22.5"),
     # ---- benign
+    M("benign-discard-flag-hoisted", IMM,
+      "        if self.throw_out_all_data:\n            return False\n",
+      "        discard = self.throw_out_all_data\n        if discard:\n            return False\n", None),
+    M("benign-empty-write-shortcut", IMM,
+      "        if self.throw_out_all_data:\n            return False\n",
+      "        if self.throw_out_all_data or not data:\n            return False\n", None),
+    M("benign-exists-checks-merged", SRV,
+      "            if os.path.exists(finalhome):\n"
+      "                # great! we already have it. easy.\n"
+      "                pass\n"
+      "            elif os.path.exists(incominghome):\n",
+      "            if os.path.exists(incominghome) or os.path.exists(finalhome):\n"
+      "                continue\n"
+      "            elif False:\n", None),
+    M("benign-exists-double-negation", SRV,
+      "            if os.path.exists(finalhome):\n", "            if not (not os.path.exists(finalhome)):\n", None),
+    M("benign-abort-rmdir-in-try", IMM,
+      "        if not os.listdir(parentdir):\n            os.rmdir(parentdir)\n",
+      "        try:\n            os.rmdir(parentdir)\n        except OSError:\n            pass\n", None),
+    M("benign-abort-listdir-len", IMM,
+      "        if not os.listdir(parentdir):\n            os.rmdir(parentdir)\n",
+      "        leftover = os.listdir(parentdir)\n        if not leftover:\n            os.rmdir(parentdir)\n", None),
+    M("benign-clean-incomplete-inlined", SRV,
+      "        self._clean_incomplete()\n", "        fileutil.rm_dir(self.incomingdir)\n", None),
+    M("benign-read-offset-check-form", IMM,
+      "        precondition(offset >= 0)\n        # reads beyond the end",
+      "        precondition(not offset < 0)\n        # reads beyond the end", None),
+    M("benign-write-offset-check-form", IMM,
+      "        precondition(offset >= 0, offset)\n", "        precondition(0 <= offset, offset)\n", None),
+    M("benign-length-from-lease-offset", IMM,
+      "            self._length = filesize - 0xc - (num_leases * self.LEASE_SIZE)",
+      "            self._length = self._lease_offset - 0xc", None),
     M("benign-eq-form", IMM, "            if actual_chunk != writing_chunk:", "            if not (actual_chunk == writing_chunk):", None),
     M("benign-inline-chunk-len", IMM,
       "            chunk_len = chunk_stop - chunk_start\n            actual_chunk = self._sharefile.read_share_data(chunk_start, chunk_len)",
